@@ -1,6 +1,6 @@
 SPECIFICATION MSpec
 CONSTANTS
-  Slack = 1048576
+  Slack = 65536
 CONSTRAINT Mark
 POSTCONDITION Accepted
 CHECK_DEADLOCK FALSE
